@@ -21,6 +21,8 @@ import (
 	"github.com/lindb/lindb/models"
 	"github.com/lindb/lindb/series/field"
 	"github.com/lindb/lindb/series/metric"
+	"github.com/lindb/lindb/series/tag"
+	"github.com/lindb/lindb/sql/stmt"
 	"github.com/lindb/lindb/verif/internal/core"
 	"github.com/lindb/lindb/verif/internal/seam"
 )
@@ -505,6 +507,50 @@ func caseConc(res *caseResult, idx int, dir string, seed int64, tier string) {
 						atomic.StoreInt32(&metaFlushing, 0)
 						o.count("meta_flush", 1)
 					}
+					runtime.Gosched()
+				}
+			}()
+		}
+		// While stores are switched and flushed: (a) read-only lookups of names that do not exist (they miss the memory
+		// stores and load the bucket from the table files - what a query for an unknown name does), and (b) repeated
+		// get-or-create calls for the names of the two previous rounds, whose entries are the ones the running flushes
+		// move from the memory stores into table files.
+		if round > 0 {
+			prev := allRows[:len(allRows)-len(rows)]
+			if len(prev) > 2*rowsPerRound {
+				prev = prev[len(prev)-2*rowsPerRound:]
+			}
+			hwg.Add(2)
+			go func() {
+				defer hwg.Done()
+				<-start
+				for n := 0; !hammerStop.Load(); n++ {
+					row := prev[n%len(prev)]
+					_, _ = d.meta.GetMetricID(row.NS, fmt.Sprintf("absent-%d", n))
+					if mid, err := d.meta.GetMetricID(row.NS, row.Metric); err == nil && len(row.Tags) > 0 {
+						// the tag key id comes from the observation map: reading the live schema object here would race
+						// with Flush marking its entries persisted (lindb hands out the shared object; DESIGN §6 #12)
+						o.mu.Lock()
+						kv, ok := o.byName[obsKey{"tagkey", fmt.Sprintf("metric=%d", mid), row.Tags[0][0]}]
+						o.mu.Unlock()
+						if ok {
+							_, _ = d.meta.FindTagValueDsByExpr(tag.KeyID(kv.id), &stmt.EqualsExpr{Key: row.Tags[0][0], Value: fmt.Sprintf("absent-%d", n)})
+						}
+					}
+					o.count("absent_name_lookups_during_flushes", 1)
+					runtime.Gosched()
+				}
+			}()
+			go func() {
+				defer hwg.Done()
+				<-start
+				for n := 0; !hammerStop.Load(); n++ {
+					row := prev[n%len(prev)]
+					metaWorkerRow(o, 30, d, row)
+					if mid, err := d.meta.GetMetricID(row.NS, row.Metric); err == nil {
+						tagIDs(o, 30, d, mid, row)
+					}
+					o.count("old_names_requested_again_during_flushes", 1)
 					runtime.Gosched()
 				}
 			}()
